@@ -125,22 +125,24 @@ class Statement(object):
                 self.comment = data.group("comment")
                 raise ParseError("[{}] invalid mnemonic".format(self.mnemonic), line)
             if self.instruction.is_string_define:
-                original_operand = data.group("operands")
-                if data.group("comment"):
-                    original_operand = "{} {}".format(data.group("operands"), data.group("comment").strip())
+                # The string is taken from the line as written, so that blanks and
+                # punctuation between the delimiters are preserved
+                original_operand = line[data.start("operands"):].rstrip("\r\n")
                 if not original_operand:
                     raise ParseError("[{}] requires a delimited string".format(self.mnemonic), line)
                 starting_symbol = original_operand[0]
                 ending_location = original_operand.find(starting_symbol, 1)
+                if ending_location == -1:
+                    raise ParseError("[{}] string is not terminated".format(self.mnemonic), line)
                 try:
                     self.operand = Operand.create_from_str(
-                        original_operand[0:ending_location + 1].strip(),
+                        original_operand[0:ending_location + 1],
                         self.instruction
                     )
                 except (OperandTypeError, ValueTypeError) as error:
                     raise ParseError(str(error), line)
                 self.original_operand = copy(self.operand)
-                self.comment = original_operand[ending_location + 2:].strip() or ""
+                self.comment = original_operand[ending_location + 1:].strip().lstrip(";").strip()
                 self.is_empty = False
             else:
                 try:
